@@ -306,8 +306,16 @@ def run_worker(cmd, cases, per_case_s=0.05, jobs=None, env=None):
     jobs = jobs or min(NCPU, max(1, len(cases) // 50))
     size = (len(cases) + jobs - 1) // jobs
     chunks = [cases[k:k + size] for k in range(0, len(cases), size)]
-    with ThreadPoolExecutor(max_workers=jobs) as ex:
-        outs = list(ex.map(lambda ch: _run_chunk(cmd, ch, per_case_s, env), chunks))
+    # every worker (and the children it spawns) creates its scratch workspaces under a private TMPDIR that is removed
+    # here, whatever happened to the worker (fatal Go errors and watchdog kills leave their directories behind)
+    import tempfile
+    td = tempfile.mkdtemp(prefix="lhv-")
+    wenv = dict(env if env is not None else os.environ, TMPDIR=td)
+    try:
+        with ThreadPoolExecutor(max_workers=jobs) as ex:
+            outs = list(ex.map(lambda ch: _run_chunk(cmd, ch, per_case_s, wenv), chunks))
+    finally:
+        shutil.rmtree(td, ignore_errors=True)
     return [x for ch in outs for x in ch]
 
 
